@@ -6,6 +6,7 @@ import (
 	"fmt"
 	"path/filepath"
 	"strings"
+	"sync"
 
 	"github.com/alicebob/sqlittle"
 	sdb "github.com/alicebob/sqlittle/db"
@@ -26,55 +27,69 @@ func collName(s string) string {
 func C10(run *hx.Run) {
 	run.Rule = "grammar-generated CREATE TABLE (+ CREATE INDEX) programs over the property's constraint space (column/table PRIMARY KEY ASC/DESC, UNIQUE, COLLATE, NOT NULL, DEFAULT, CHECK, REFERENCES in random textual order, duplicate/overlapping constraints, quoted/bracketed/backticked identifiers and type names, WITHOUT ROWID, partial and expression indexes) are executed by SQLite into one database file; for every table sqlittle accepts, Database.Schema / DB.Columns are compared with SQLite's PRAGMA table_xinfo (names, order), table_list (WITHOUT ROWID), rowid alias (single pk column, no pk index; confirmed by data: c IS rowid), primary key columns/collations/directions, and for every index sqlittle lists - matched by NAME - index_xinfo key columns, desc, coll; WITHOUT ROWID appended key columns are checked behaviourally (IndexedSelect must return SQLite's rows in SQLite's order). distinct = distinct accepted programs (by statement text); non-trivial = programs with at least one constraint or index"
 	run.Assumptions = append(stdAssumptions, "an index sqlittle leaves out, or a table it rejects, is not a violation (counted)")
-	o := mustOracle(run)
-	if o == nil {
-		return
-	}
-	defer o.Close()
 	dir, cleanup := hx.ScratchDir("C10")
 	defer cleanup()
-	nFiles, perFile := 6, 500
+	nFiles, perFile := 24, 125
 	if run.Thorough() {
-		nFiles, perFile = 60, 1500
+		nFiles, perFile = 400, 200
 	}
+	jobs := make(chan int, nFiles)
 	for f := 0; f < nFiles; f++ {
-		path := filepath.Join(dir, fmt.Sprintf("ddl%d.sqlite", f))
-		rep, err := ddlPrograms(o, run.Seed*101+int64(f), perFile, path, false)
-		if err != nil {
-			run.Inconclusive("ddl generator: " + err.Error())
-			return
+		jobs <- f
+	}
+	close(jobs)
+	var wg sync.WaitGroup
+	for wi := 0; wi < nWorkers(); wi++ {
+		wg.Add(1)
+		go func() {
+			defer wg.Done()
+			o, err := hx.StartOracle()
+			if err != nil {
+				run.Inconclusive("oracle: " + err.Error())
+				return
+			}
+			defer o.Close()
+			for f := range jobs {
+				c10File(run, o, dir, f, perFile)
+			}
+		}()
+	}
+	wg.Wait()
+}
+
+func c10File(run *hx.Run, o *hx.Oracle, dir string, f, perFile int) {
+	path := filepath.Join(dir, fmt.Sprintf("ddl%d.sqlite", f))
+	rep, err := ddlPrograms(o, run.Seed*101+int64(f), perFile, path, false)
+	if err != nil {
+		run.Inconclusive("ddl generator: " + err.Error())
+		return
+	}
+	run.Count("programs_generated", rep.Generated)
+	run.Count("programs_accepted_by_sqlite", len(rep.Programs))
+	db, err := sqlittle.Open(path)
+	if err != nil {
+		run.Violation("C10/open", "Open failed: "+err.Error(), nil)
+		return
+	}
+	defer db.Close()
+	low, err := sdb.OpenFile(path)
+	if err != nil {
+		run.Violation("C10/open-low", "OpenFile failed: "+err.Error(), nil)
+		return
+	}
+	defer low.Close()
+	sqlByTable := map[string][]string{}
+	for _, p := range rep.Programs {
+		if len(p.SQL) > 0 {
+			sqlByTable[strings.ToLower(unquoteIdent(p.Table.Name))] = p.SQL
 		}
-		run.Count("programs_generated", rep.Generated)
-		run.Count("programs_accepted_by_sqlite", len(rep.Programs))
-		db, err := sqlittle.Open(path)
-		if err != nil {
-			run.Violation("C10/open", "Open failed: "+err.Error(), nil)
+	}
+	for ti := range rep.Meta {
+		t := &rep.Meta[ti]
+		if t.Name == "other" {
 			continue
 		}
-		low, err := sdb.OpenFile(path)
-		if err != nil {
-			db.Close()
-			run.Violation("C10/open-low", "OpenFile failed: "+err.Error(), nil)
-			continue
-		}
-		sqlByTable := map[string][]string{}
-		progByTable := map[string]*ddlProgram{}
-		for pi, p := range rep.Programs {
-			if len(p.SQL) > 0 {
-				sqlByTable[strings.ToLower(unquoteIdent(p.Table.Name))] = p.SQL
-				progByTable[strings.ToLower(unquoteIdent(p.Table.Name))] = &rep.Programs[pi]
-			}
-		}
-		for ti := range rep.Meta {
-			t := &rep.Meta[ti]
-			if t.Name == "other" {
-				continue
-			}
-			stmts := sqlByTable[strings.ToLower(t.Name)]
-			c10Table(run, o, path, db, low, t, stmts, c10Causes(t, progByTable[strings.ToLower(t.Name)]))
-		}
-		db.Close()
-		low.Close()
+		c10Table(run, o, path, db, low, t, sqlByTable[strings.ToLower(t.Name)], "")
 	}
 }
 
